@@ -46,6 +46,10 @@ type WorkerPool struct {
 
 	// mutex is used to synchronize access to the WorkerPool.
 	mutex syncutils.RWMutex
+
+	// submitMutex makes Submit atomic with respect to Shutdown: a task is either refused or completely registered
+	// (counted and queued) before the pool stops accepting tasks.
+	submitMutex syncutils.RWMutex
 }
 
 // New creates a new WorkerPool with the given name and returns it.
@@ -82,6 +86,9 @@ func (w *WorkerPool) Start() *WorkerPool {
 
 // Submit submits a new task to the WorkerPool.
 func (w *WorkerPool) Submit(workerFunc func(), optStackTrace ...string) {
+	w.submitMutex.RLock()
+	defer w.submitMutex.RUnlock()
+
 	if !w.IsRunning() {
 		if w.optPanicOnSubmitAfterShutdown {
 			panic(fmt.Sprintf("worker pool '%s' is not running", w.Name))
@@ -148,7 +155,10 @@ func (w *WorkerPool) Shutdown() *WorkerPool {
 	defer w.mutex.Unlock()
 
 	if w.isRunning.Load() {
+		// wait for Submit calls that already passed their running check, so that their tasks are not stranded
+		w.submitMutex.Lock()
 		w.isRunning.Store(false)
+		w.submitMutex.Unlock()
 
 		for range w.workerCount {
 			w.shutdownSignal <- struct{}{}
